@@ -906,9 +906,18 @@ def frames_check(ctx, relevant_kinds, monitor, n_quick, n_thorough, deps, nontri
                 sigs.add(sig)
                 mk = re.search(r"case (\d+):", run["log"])
                 kk = int(mk.group(1)) if mk else last.get("k", -1)
-                ctx.add_violation(what, sig, {"family": "frames", "run_seed": run["seed"], "n": run["n"],
-                                              "script": full_script(run, kk, last["hdr"] + script_of(last) + ["end"]),
-                                              "log": run["log"][-4000:]})
+                extra = {}
+                try:   # a hang leaves the goroutine stacks and the trace so far: keep them with the replay
+                    sp = os.path.join(run["dir"], "hang_%d.stacks" % kk)
+                    if os.path.exists(sp):
+                        stacks = open(sp, errors="replace").read().split("\n\n")
+                        extra["library_goroutines_at_hang"] = [g for g in stacks if "vbauerster/mpb" in g][:40]
+                    extra["trace_tail_at_hang"] = last["trace"][-120:]
+                except Exception as e:
+                    extra["hang_details_error"] = repr(e)
+                ctx.add_violation(what, sig, dict({"family": "frames", "run_seed": run["seed"], "n": run["n"],
+                                                   "script": full_script(run, kk, last["hdr"] + script_of(last) + ["end"]),
+                                                   "log": run["log"][-4000:]}, **extra))
             found = True
         for c in cases:
             fr = frames_of(c)
